@@ -64,8 +64,10 @@ EigendecompositionResult generalized_eigendecomposition_impl_dense(const LMatrix
         {
             DenseMatrix selected_eigenvectors =
                 solver.eigenvectors().leftCols(target_dimension + skip).rightCols(target_dimension);
-            return EigendecompositionResult(selected_eigenvectors,
-                                            solver.eigenvalues().segment(skip, skip + target_dimension));
+            // (as many eigenvalues as requested eigenvectors and skipped ones, if there are that many left)
+            const IndexType n_eigenvalues =
+                std::min<IndexType>(skip + target_dimension, solver.eigenvalues().size() - skip);
+            return EigendecompositionResult(selected_eigenvectors, solver.eigenvalues().segment(skip, n_eigenvalues));
         }
     }
     else
